@@ -101,6 +101,9 @@ const TAIL_SNIPPETS: &[Snippet] = &[
     Snippet { text: "enum X{j}n { X{j}n_A, X{j}n_B };\nstatic const enum X{j}n X{j}h = X{j}n_B;\n", items: &[("X{j}n", 't', &[]), ("X{j}h", 'v', &["X{j}n"])] },
     Snippet { text: "typedef double X{j}d;\nstatic const X{j}d X{j}k = 1.5;\ntypedef signed char X{j}c;\nstatic const X{j}c X{j}m = -3;\n", items: &[("X{j}d", 't', &[]), ("X{j}k", 'v', &["X{j}d"]), ("X{j}c", 't', &[]), ("X{j}m", 'v', &["X{j}c"])] },
     Snippet { text: "typedef int X{j}e;\nstatic const X{j}e X{j}arr[2] = {1, 2};\ntypedef X{j}e X{j}e2;\nstatic const X{j}e2 X{j}q = 7;\n", items: &[("X{j}e", 't', &[]), ("X{j}arr", 'v', &["X{j}e"]), ("X{j}e2", 't', &["X{j}e"]), ("X{j}q", 'v', &["X{j}e2"])] },
+    // a typedef that is only the declared type of a bit-field; a parameter called `this`
+    Snippet { text: "typedef unsigned X{j}e;\ntypedef unsigned char X{j}m;\nstruct X{j}s { X{j}e flags : 3; X{j}m mode : 2; int rest : 5; };\n", items: &[("X{j}e", 't', &[]), ("X{j}m", 't', &[]), ("X{j}s", 't', &["X{j}e", "X{j}m"])] },
+    Snippet { text: "struct X{j}w { int k; };\nstruct X{j}c { int z; };\nint X{j}f(struct X{j}w *this, struct X{j}c *self, int n);\nextern int (*X{j}g)(struct X{j}w *this);\n", items: &[("X{j}w", 't', &[]), ("X{j}c", 't', &[]), ("X{j}f", 'f', &["X{j}w", "X{j}c"]), ("X{j}g", 'v', &["X{j}w"])] },
 ];
 
 /// Every item of every snippet as the only root, on an otherwise empty header, with the
